@@ -5,7 +5,7 @@
 set -u
 V="$(cd "$(dirname "$0")/.." && pwd)"
 R="$1"; F="${2:-}"
-cd "$V"
+cd "$V"; mkdir -p "$V/.build"
 out="$V/seeded/RESULTS.tsv"
 [ -z "$F" ] && : > "$out"
 export VERIF_REPO="$R"
